@@ -252,6 +252,24 @@ func evalAztec(c *core.Ctx, cs *core.Case) {
 	if have, need := res.CheckWords*res.WordSize, dataBits*pct/100; have < need {
 		c.Fail("C12", cs, "%d check words of %d bits = %d bits, less than %d%% of the %d data bits (%d)", res.CheckWords, res.WordSize, have, pct, dataBits, need)
 	}
+	if layers == 0 && (c.ID == "C10" || c.ID == "C03") {
+		// the automatic result shows that the payload is representable in this size, so the
+		// explicit request for exactly this size must be accepted as well
+		req := res.Layers
+		if res.Compact {
+			req = -req
+		}
+		var b2 barcode.Barcode
+		var e2 error
+		if p, w := Safely(func() { b2, e2 = aztec.Encode(cs.S, pct, req) }); p {
+			c.Fail("C10", cs, "explicit request %d for the automatically chosen size panicked: %s", req, w)
+		} else if e2 != nil || b2 == nil {
+			c.Fail("C10", cs, "automatic sizing fits the payload into compact=%v layers=%d (%d data words), but the explicit request %d for that very size is refused: %v", res.Compact, res.Layers, res.DataWords, req, e2)
+		} else if c.ID == "C03" && observe(b2, nil) != observe(bc, nil) {
+			c.Fail("C03", cs, "explicit request %d gives a different symbol than automatic sizing, which chose that size", req)
+		}
+		c.R.Transitions++
+	}
 	if layers == 0 && c.ID == "C13" {
 		// every explicit request for a smaller symbol must be refused
 		for req := -4; req <= 32; req++ {
